@@ -58,3 +58,7 @@ add("C20", "property-based testing (Hypothesis): round-trip / prefix-preservatio
     "Generated-input search over three writers: the trace with counters (flags, suffix, ranks), the critical-path overlay (all option combinations incl. the zero-weight-launch-edge switch) and write_trace/read_trace/update_trace_rank/create_rank_to_trace_dict in both file formats with ranks up to 10^6. The first n output events must equal the source list element-wise (overlay: modulo the 'critical' marker), only counters/flow events may be appended, markers sit exactly on the critical events, one s+f pair per drawn edge on the pid/tid of the edge's two events, rank update changes only distributedInfo.rank, discovery returns the metadata rank.",
     "Output files are read by sniffing the gzip magic (the writers gzip regardless of the name); complete events carry an args object; generated event args contain no key named rank.",
     "DESIGN.md §5 C20")
+add("C13", "property-based testing (Hypothesis) over a trace simulator against a recursive tree reference model",
+    "Generated-input search over simulated multi-thread traces (step thread + autograd thread, backward annotations, launches from several children, dropped partners) loaded through the public entry point: parent, depth, height and the five kernel aggregates of every host event are recomputed from a model tree (innermost-enclosing forest + device children from links + stated autograd re-parenting) in loaded time and compared exactly; get_stack_of_node must contain ancestors and descendants; zero-duration operators by validity predicate.",
+    "Trusts hv/gen/spans.model_parents, hv/model/raw links and hv/model/trace trimming; sync records on stream -1 are not part of the asserted tree.",
+    "DESIGN.md §5 C13")
